@@ -150,3 +150,99 @@ def twin_workspace(ctx, every=1):
     if len(os.listdir(d)) < 60 // every:
         raise vlib.Infra("twin workspace has only %d packages" % (len(os.listdir(d)) - 1))
     return d
+
+
+WCFG = """SPECIFICATION WSpec
+CONSTANTS
+  Memo = %s
+  VariantDep = %s
+INVARIANTS Faithful NothingForeign Complete
+CHECK_DEADLOCK FALSE
+"""
+WLIVE = """SPECIFICATION WLive
+CONSTANTS
+  Memo = FALSE
+  VariantDep = TRUE
+PROPERTIES AllDelivered
+CHECK_DEADLOCK FALSE
+"""
+
+
+def work_design(ctx):
+    """AnalyzerWork.tla on the bounded instance: the work loop is faithful; a table of remembered diagnostics keyed by the
+    syntax tree is harmless while verdicts do not depend on the variant and breaks Faithful as soon as one does."""
+    out = {}
+    for memo, dep, expect in (("FALSE", "FALSE", "ok"), ("FALSE", "TRUE", "ok"), ("TRUE", "FALSE", "ok"), ("TRUE", "TRUE", "violation")):
+        r = ctx.tlc("AnalyzerWorkMC", cfg_text=WCFG % (memo, dep), workers=2, timeout=300, deadlock=True, expect=expect)
+        out["memo_%s_variantdep_%s" % (memo, dep)] = r.violated if expect == "violation" else r.distinct
+    out["liveness"] = ctx.tlc("AnalyzerWorkMC", cfg_text=WLIVE, workers=2, timeout=300, deadlock=True, expect="ok").distinct
+    return out
+
+
+def variant_runs(ctx, runs=2, flags="enable-all=true", sequential_too=True):
+    """The work loop of every pass over corpus/variants (a package whose in-package test file changes method sets, so that
+    caseOrder, redundantSprint and preferStringWriter say different things about the SAME file in `p` and `p [p.test]`):
+    recorded through the linter and analyzer hooks, validated by TraceAnalyzerWork; what the driver holds for a pass must be
+    what newly constructed checkers say about that pass' own variant (Verdict of the design model)."""
+    import shutil
+    out = {"design": work_design(ctx), "runs": 0, "events": 0, "passes": 0, "variant_dependent_verdicts": 0, "drift": 0}
+    wsd = os.path.join(ctx.scratch, "variants_ws")
+    if not os.path.exists(wsd):
+        shutil.copytree(os.path.join(vlib.VERIF, "corpus", "variants"), wsd)
+    modes = [False] * runs + ([True] if sequential_too else [])
+    for k, seq in enumerate(modes):
+        tf = ctx.spec_path("an_work_%d.ndjson" % k)
+        outp = ctx.path("an", "work_%d.json" % k)
+        args = ["analyze", "-dir", wsd, "-out", outp, "-work", tf, "-init-embedded", "-flags", flags]
+        if seq:
+            args.append("-sequential")
+        r = ctx.run_vh(args, check=False, timeout=1200)
+        if not os.path.exists(tf + ".refs") or not os.path.exists(outp):
+            raise vlib.Infra("recorded analyzer run over corpus/variants failed: %s" % r.stderr[-1500:])
+        res = json.load(open(outp))
+        if res["runs"][0].get("panic"):
+            ctx.fail("AnalyzerPanic", "analyzer panicked on corpus/variants: %s" % res["runs"][0]["panic"], {})
+            continue
+        os.replace(tf + ".refs", ctx.spec_path("an_refs_%d.ndjson" % k))
+        events = [json.loads(l) for l in open(tf)]
+        refs = [json.loads(l) for l in open(ctx.spec_path("an_refs_%d.ndjson" % k))]
+        checkers = refs[0]["checkers"]
+        files_of = {e["pass"]: e["files"] for e in events if e["ev"] == "WBegin"}
+        pkg_of = {e["pass"]: e["pkg"] for e in events if e["ev"] == "WDeliver"}
+        verdict = {(x["pass"], x["file"], x["checker"]): x["ws"] for x in refs[1:]}
+        # vacuity: the corpus must contain a file whose verdict depends on the variant
+        dep = 0
+        for (p, f, c), ws in verdict.items():
+            for q in files_of:
+                if q != p and f in files_of[q] and verdict.get((q, f, c), []) != ws:
+                    dep += 1
+        if dep == 0:
+            raise vlib.Infra("corpus/variants shows no variant-dependent verdict (AnalyzerWorkMC: the memo what-if is then invisible)")
+        out["variant_dependent_verdicts"] = dep
+        delivered = {e["pass"]: e["ds"] for e in events if e["ev"] == "WDeliver"}
+        bad = 0
+        for p, files in sorted(files_of.items()):
+            exp = [d for f in files for c in checkers for d in verdict.get((p, f, c), [])]
+            got = delivered.get(p)
+            if got is None:
+                continue  # reported by AllDelivered below
+            if got != exp:
+                bad += 1
+                foreign = [d for d in got if d not in exp]
+                lost = [d for d in exp if d not in got]
+                what = ("foreign (true of another build variant only): %s" % foreign[:2]) if foreign else \
+                       ("lost: %s" % lost[:2]) if lost else "same diagnostics in another order"
+                kind = "foreign" if foreign else "lost" if lost else "order"
+                ctx.fail("VariantDiagnosticsNotOwn %s" % kind,
+                         "the diagnostics the driver holds for pass %s (%d) are not what fresh checkers say about that variant (%d); %s"
+                         % (pkg_of.get(p, p), len(got), len(exp), what), {"pass": pkg_of.get(p), "foreign": foreign[:10], "lost": lost[:10]})
+        ok, badline, st = ctx.validate_trace("TraceAnalyzerWork", tf, chunks=1, env={"REFS": "an_refs_%d.ndjson" % k})
+        out["runs"] += 1
+        out["events"] += len(events)
+        out["passes"] += len(files_of)
+        if not ok and bad == 0:
+            # the loop is organised differently but every pass delivered its own verdicts: drift of the model, not a verdict
+            out["drift"] += 1
+            line = open(tf).read().splitlines()[badline - 1][:300] if badline and badline <= len(events) else "<end of trace>"
+            ctx.notes.append("TraceAnalyzerWork does not accept the recorded work loop at line %s (%s) although every pass delivered its own verdicts" % (badline, line))
+    return out
